@@ -520,8 +520,14 @@ func (e *Exec) unop(fr *Frame, st *BState, x *ssa.UnOp) SV {
 		}
 		return &Scalar{T: wrapFor(x.Type(), app(SInt, "-", a)), Ty: x.Type()}
 	case token.ARROW:
-		e.note("channel receive abstracted")
-		return e.freshSV(x.Type(), "recv", st.reach, false)
+		e.note("channel receive abstracted (any message that satisfies the channel's `chan T assumes` clauses)")
+		rv := e.freshSV(x.Type(), "recv", st.reach, false)
+		msg := rv
+		if tv, ok := rv.(*TupleV); ok && len(tv.Elems) > 0 {
+			msg = tv.Elems[0]
+		}
+		e.chanAssume(fr, st, x.X.Type().Underlying().(*types.Chan).Elem(), msg)
+		return rv
 	}
 	e.note("abstracted unop " + x.Op.String())
 	return e.freshSV(x.Type(), "unop", st.reach, false)
@@ -590,6 +596,7 @@ func (e *Exec) convert(fr *Frame, st *BState, x *ssa.Convert) SV {
 			et := x.Type().Underlying().(*types.Slice).Elem()
 			if basicOf(et) != nil && basicOf(et).Kind() == types.Uint8 {
 				e.assume(eq(sl.Len, e.strLen(s.T)))
+				byteSliceOf[sl.Base] = s.T
 			} else {
 				e.assume(le(sl.Len, e.strLen(s.T)))
 			}
@@ -610,4 +617,23 @@ func (e *Exec) strLen(s *Term) *Term {
 		e.assume(le(n, bigLit("MAX64")))
 	}
 	return n
+}
+
+// chanAssume: facts the contract files state about every message received from a channel of this element type.
+func (e *Exec) chanAssume(fr *Frame, st *BState, elem types.Type, msg SV) {
+	if e.cs == nil {
+		return
+	}
+	for name, cls := range e.cs.ChanMsg {
+		for _, c := range cls {
+			t, err := resolveTypeString(c.Pkg, name)
+			if err != nil || !types.Identical(t, elem) {
+				continue
+			}
+			e.saneInput(st, elem, msg, st.reach)
+			env := &SpecEnv{e: e, fr: fr, st: st, bound: map[string]SV{"msg": msg}, cs: e.cs, pkg: c.Pkg}
+			e.assume(implies(st.reach, scal(env.eval(c.Expr))))
+			e.assumed = append(e.assumed, "chan "+name+" assumes "+c.Src)
+		}
+	}
 }
